@@ -645,8 +645,9 @@ class C03(Prop):
                   "abstract in the theorems (FloatOps) and IEEE doubles in the driver; in-place fast paths keyed on reference counts "
                   "(add_array, string join, absorb / compose_mapping) are compared on generated self / aliased operand programs only "
                   "(no heap model); shift counts outside 0..63 are outside the model")
-    rule = ("cases = corpus + known-finding inputs + boundary list + seeded random cases from 22 families (binary/unary "
-            "operators, op=, ++/--, index, range, index/range/char lvalues, integer / nested / string switches, loops, local / "
+    rule = ("cases = corpus + known-finding inputs + boundary list + seeded random cases from 23 families (binary/unary "
+            "operators, op=, ++/--, index, range, index/range/char lvalues, integer / nested / string switches, trees of degenerate "
+            "switches (only default, single case, default anywhere, siblings, three levels), loops, local / "
             "inherited / function-pointer calls, macros vs hand expansion, literals, zero-comparison rewrites, mapping algebra "
             "around every growMap threshold, self-operand / aliased-operand / freshness forms of the container and string operators "
             "(x op= x, x = x op x, a second reference held before, the alias as operand; local, global, array element, mapping value), "
@@ -2343,8 +2344,61 @@ class C03(Prop):
                     ("expr", ("asg", ("idx", L(A), I(0)), I(5))), ("ret", Arr([L(A), L(B)]))])
         return make_case(cid, fns, same=[], meta={"origin": "generated", "family": "fresh", "kind": kind})
 
+    def fam_swshape(self, rng, cid):
+        """DEGENERATE and nested switch shapes: only `default:`, a single case, default first / in the middle / last / absent,
+        0..3 labels, int / range / string labels, fall-through and `break` arms, switches nested inside a case body, inside the
+        default body, several sibling switches in one arm, up to three levels - the compiler keeps ONE case list for all switches
+        that are open at a time (prepare_cases), the reference takes the first matching arm of each switch on its own."""
+        ints = [0, 1, 2, 3, 5, 7, -1, 100, 2 ** 32]
+        strs = [b"a", b"b", b"", b"zz"]
+        counter = [0]
+
+        def leaf():
+            counter[0] += 1
+            k = rng.weighted([("ret", 5), ("acc", 3), ("fall", 2)])
+            if k == "ret":
+                return [("ret", ("bin", "add", L(LN), I(1000 * counter[0])))]
+            if k == "acc":
+                return [("expr", ("aop", "add", L(LN), I(counter[0]))), "break"]
+            return [("expr", ("aop", "add", L(LN), I(10 * counter[0])))]          # falls through into the next arm
+
+        def sw(depth, var_i):
+            var = [L(A), L(B), L(C)][var_i % 3]
+            skind = "str" if var_i % 3 == 2 else rng.choice(["int", "int", "range"])
+            nlab = rng.choice([0, 0, 1, 1, 2, 3])
+            dpos = rng.choice(["none", "first", "mid", "last", "last"]) if nlab else rng.choice(["last", "last", "none"])
+            if nlab == 0 and dpos == "none":
+                dpos = "last"                                    # a switch needs at least one label to be accepted by the grammar
+            if skind == "str":
+                labs = [("str", q) for q in rng.shuffle(strs)[:nlab]]
+            elif skind == "range" and nlab:
+                pts = sorted(rng.shuffle(ints)[:nlab + 1])
+                labs = [("range", pts[0], pts[1])] + [("num", q) for q in pts[2:]]
+            else:
+                labs = [("num", q) for q in rng.shuffle(ints)[:nlab]]
+
+            def body():
+                if depth < 2 and rng.chance(2, 5):
+                    inner = [sw(depth + 1, var_i + 1)]
+                    if rng.chance(1, 3):
+                        inner.append(sw(depth + 1, var_i + 2))          # sibling switches in one arm
+                    return inner + leaf()
+                return leaf()
+            arms = [(lab, body()) for lab in labs]
+            if dpos != "none":
+                pos = {"first": 0, "mid": len(arms) // 2, "last": len(arms)}[dpos]
+                arms.insert(pos, ("default", body()))
+            return ("switch", var, arms)
+        tree = sw(0, 0)
+        fns = []
+        for _ in range(rng.range(4, 7)):
+            vals = [("expr", ("asg", L(A), I(rng.choice(ints + [4, 6])))), ("expr", ("asg", L(B), I(rng.choice(ints + [4, 6])))),
+                    ("expr", ("asg", L(C), rng.choice([S(q) for q in strs] + [S(b"nope"), I(0)])))]
+            fns.append(vals + [tree, ("ret", ("bin", "sub", I(0), L(LN)))])
+        return make_case(cid, fns, same=[], meta={"origin": "generated", "family": "swshape"})
+
     FAMS = [("fam_binop", 9), ("fam_unop", 2), ("fam_incdec", 3), ("fam_index", 5), ("fam_range", 5), ("fam_lvalue", 6),
-            ("fam_switch", 6), ("fam_loop", 6), ("fam_assignop", 5), ("fam_literal", 3), ("fam_rewrite", 4), ("fam_macro", 3), ("fam_calls", 5), ("fam_mapalg", 7), ("fam_maptrace", 5), ("fam_macrosubst", 7), ("fam_mdef", 4), ("fam_strswitch", 6), ("fam_selfop", 8), ("fam_funp", 8), ("fam_arrtrace", 3), ("fam_fresh", 7)]
+            ("fam_switch", 6), ("fam_loop", 6), ("fam_assignop", 5), ("fam_literal", 3), ("fam_rewrite", 4), ("fam_macro", 3), ("fam_calls", 5), ("fam_mapalg", 7), ("fam_maptrace", 5), ("fam_macrosubst", 7), ("fam_mdef", 4), ("fam_strswitch", 6), ("fam_selfop", 8), ("fam_funp", 8), ("fam_arrtrace", 3), ("fam_fresh", 7), ("fam_swshape", 7)]
 
     def generate(self, rng, n, tier):
         out = []
